@@ -65,11 +65,13 @@ class TypeScriptSRPAnalyzer(TypeScriptBaseAnalyzer):
         loc = self.metrics_calculator.count_loc(class_node, source)
         has_keyword = any(keyword in class_name for keyword in config.keywords)
 
+        # A decorated class node starts at its first decorator; report the `class` header line
+        header = next((c for c in class_node.children if c.type == "class"), class_node)
         return {
             "class_name": class_name,
             "method_count": method_count,
             "loc": loc,
             "has_keyword": has_keyword,
-            "line": class_node.start_point[0] + 1,
-            "column": class_node.start_point[1],
+            "line": header.start_point[0] + 1,
+            "column": header.start_point[1],
         }
